@@ -138,6 +138,8 @@ func runWorker(prop string, tier int) {
 		opts.MaxPaths = 400000
 		opts.TimeBudget = 30 * time.Minute
 		m.SolverTimeoutMS = 20000
+		opts.MaxSamples = 8
+		symterp.SecondOpinion = 3
 	}
 	if v := os.Getenv("GOSYM_MAXPATHS"); v != "" {
 		opts.MaxPaths, _ = strconv.Atoi(v)
